@@ -7,3 +7,8 @@ pub mod c02;
 pub mod c03;
 pub mod c04;
 pub mod c16;
+pub mod c05;
+pub mod c06;
+pub mod c19;
+pub mod c13;
+pub mod c14;
